@@ -948,3 +948,35 @@ func (a *Actor) AdversarialTraffic(t *rapid.T) {
 		}
 	}
 }
+
+// DupInputQiTx builds a correctly signed Qi transaction that names one spendable output of the
+// actor twice (MuSig2 over the repeated key) and creates outputs worth more than that one output
+// holds; nil when no suitable output exists. A block producer other than the stock worker could
+// put it into a block: block validation must refuse that block.
+func (a *Actor) DupInputQiTx(t *rapid.T) *types.Transaction {
+	us, owners := a.spendable()
+	var cands []int
+	for i, u := range us {
+		if u.Entry.Denomination >= 4 {
+			cands = append(cands, i)
+		}
+	}
+	if len(cands) == 0 {
+		return nil
+	}
+	i := cands[rapid.IntRange(0, len(cands)-1).Draw(t, "dupUtxo")]
+	total := 2 * types.Denominations[us[i].Entry.Denomination].Int64()
+	dens := splitDenoms(total-total/5, types.MaxDenomination, rapid.IntRange(1, 3).Draw(t, "dupNout"))
+	if len(dens) == 0 {
+		return nil
+	}
+	var outs []QiOut
+	for _, d := range dens {
+		outs = append(outs, QiOut{Denomination: d, To: a.freshQi().Addr})
+	}
+	tx, err := QiTxMulti([]*Key{owners[i], owners[i]}, []UTXORec{us[i], us[i]}, outs, nil)
+	if err != nil {
+		return nil
+	}
+	return tx
+}
